@@ -61,6 +61,22 @@ def _judge_stale_frame(identity, payload, cut, out):
     """
     from pyrtcm import RTCMReader  # pylint: disable=import-outside-toplevel
 
+    # first the complete frame (a parser may remember it), then the short buffer under the complete
+    # frame's own trailer with validation off, then under its own correct trailer
+    full = pinned.frame(payload)
+    try:
+        RTCMReader.parse(full)
+    except Exception:  # pylint: disable=broad-except
+        pass
+    short = b"\xd3" + cut.to_bytes(2, "big") + payload[:cut] + full[-3:]
+    try:
+        msg = RTCMReader.parse(short, validate=0)
+        out.bad("truncated-accepted:after-complete-frame",
+                f"{identity}: after the complete {len(payload)}-byte frame had been parsed, a frame of the "
+                f"first {cut} payload bytes carrying the same trailer (validate=0) was decoded into a "
+                f"message with a {len(msg.payload)}-byte payload")
+    except Exception:  # pylint: disable=broad-except
+        pass
     body = b"\xd3" + len(payload).to_bytes(2, "big") + payload[:cut]
     buf = body + pinned.crc24q_table(body).to_bytes(3, "big")
     for validate in (1, 0):
